@@ -223,6 +223,8 @@ def step_key(line):
         return line
     if line.startswith("SCAN "):
         return hashlib.md5((f[2] + "|" + f[1][f[1].find(" S "):]).encode()).hexdigest()
+    if line.startswith(("FAULT ", "CONC ", "CONS ", "CRASH ")):
+        return hashlib.md5(re.sub(r"\b1[0-9]{12}\b|\b[0-9]{5,9}\b", "T", " | ".join(f[1:3])).encode()).hexdigest()
     pre = f[1]
     i = pre.find(" S ")
     krows = pre[:i].split(" ")
@@ -237,6 +239,12 @@ def step_key(line):
 
 def nontrivial(line):
     f = line.split(" | ")
+    if line.startswith(("FAULT ", "CONS ")):
+        return True
+    if line.startswith("CONC "):
+        return len(f) >= 4 and f[2].count(" ;; ") >= 1
+    if line.startswith("CRASH "):
+        return len(f) >= 4 and f[1].split()[1] != "0"
     if line.startswith("SCAN "):
         return len(f) >= 5 and not f[3].startswith("L 0")
     if len(f) < 5:
